@@ -221,6 +221,26 @@ impl Conn {
             defer_wake(w);
         }
     }
+    /// shutdown(SHUT_WR) by `side`: the other side reads end-of-stream once it has drained what was
+    /// sent, while `side` goes on reading - whatever the other side writes is still accepted
+    pub fn shutdown_write(&self, side: usize) {
+        count("fault_peer_half_close");
+        next_seq();
+        let (a, b) = {
+            let mut d = self.dir(side);
+            d.w_closed = true;
+            d.wake_tap_waiters();
+            (d.rd_waker.take(), d.wr_waker.take())
+        };
+        if let Some(w) = a {
+            defer_wake(w);
+        }
+        defer_drop(b);
+    }
+    /// has `side` closed or shut down its writing direction?
+    pub fn write_closed(&self, side: usize) -> bool {
+        self.dir(side).w_closed
+    }
     /// Abortive close of the whole connection: both directions error with ConnectionReset,
     /// undelivered bytes are discarded.
     pub fn reset(&self) {
